@@ -1,1 +1,138 @@
+(* C12_Spec.v — the declarative specification of the reference server's request checks,
+   written from the property text and the protocol documents (Connect: "Connect-Timeout-Ms:
+   positive integer as ASCII string of at most 10 digits", milliseconds; gRPC: "TimeoutValue:
+   positive integer as ASCII string of at most 8 digits" followed by one TimeoutUnit H M S m u n).
+   Nothing here refers to how checks.go computes anything: no ParseInt, no wrap-around, no
+   round trips, no content-type dispatch.  The vocabulary (request record, feedback kinds, the
+   test matrix `axes`/`actual`, `render`, `with_expect`) is the model's. *)
 From V Require Export C12_Model.
+Open Scope Z_scope.
+
+(* ---------- 1. the matrix: which aspects of a set-up a request deviates in ---------- *)
+Inductive aspect := AVersion | AMethod | AProtocol | ACodec | ACompression | ATls | ACert.
+
+Definition tls_on (t : tlsmode) : bool := match t with Plain => false | _ => true end.
+
+(* e: what the runner announced; a: what the client did.  The client certificate can only be
+   judged on a TLS connection that was supposed to be one. *)
+Definition deviates (A : aspect) (e a : axes) : Prop :=
+  match A with
+  | AVersion => a_version e <> a_version a
+  | AMethod => a_get e <> a_get a
+  | AProtocol => a_protocol e <> a_protocol a
+  | ACodec => a_codec e <> a_codec a
+  | ACompression => a_compression e <> a_compression a
+  | ATls => tls_on (a_tls e) <> tls_on (a_tls a)
+  | ACert => tls_on (a_tls e) = true /\ tls_on (a_tls a) = true /\ a_tls e <> a_tls a
+  end.
+
+(* the aspect a feedback line is about (None: a line about something else) *)
+Definition aspect_of (k : kind) : option aspect :=
+  match k with
+  | KVersion _ _ => Some AVersion
+  | KMethod _ _ => Some AMethod
+  | KProtocol _ _ => Some AProtocol
+  | KCodec _ _ => Some ACodec
+  | KCompression _ _ => Some ACompression
+  | KTlsExpected | KPlainExpected => Some ATls
+  | KCert _ _ => Some ACert
+  | _ => None
+  end.
+
+(* the exact lines (one per deviating aspect, in the order the server writes them): each names
+   what was announced and what was seen *)
+Definition cert_name (t : tlsmode) : bytes := match t with TlsCert => c12_client_cert_name | _ => [] end.
+Definition method_name (get : bool) : bytes := if get then bs "GET" else bs "POST".
+
+Definition fb_version (e a : axes) : fb :=
+  if Z.eqb (version_num (a_version e)) (version_num (a_version a)) then []
+  else [KVersion (version_num (a_version e)) (version_num (a_version a))].
+Definition fb_protocol (e a : axes) : fb :=
+  if Z.eqb (protocol_num (a_protocol e)) (protocol_num (a_protocol a)) then []
+  else [KProtocol (protocol_num (a_protocol e)) (protocol_num (a_protocol a))].
+Definition fb_codec (e a : axes) : fb :=
+  if Z.eqb (codec_num (a_codec e)) (codec_num (a_codec a)) then []
+  else [KCodec (codec_name (a_codec e)) (codec_name (a_codec a))].
+Definition fb_compression (e a : axes) : fb :=
+  if Z.eqb (compression_num (a_compression e)) (compression_num (a_compression a)) then []
+  else [KCompression (compression_name (a_compression e)) (compression_name (a_compression a))].
+Definition fb_tls (e a : axes) : fb :=
+  match tls_on (a_tls e), tls_on (a_tls a) with
+  | true, false => [KTlsExpected]
+  | false, true => [KPlainExpected]
+  | false, false => []
+  | true, true => if bytes_eqb (cert_name (a_tls e)) (cert_name (a_tls a)) then []
+                  else [KCert (cert_name (a_tls e)) (cert_name (a_tls a))]
+  end.
+Definition fb_method (e a : axes) : fb :=
+  if Bool.eqb (a_get e) (a_get a) then [] else [KMethod (method_name (a_get e)) (method_name (a_get a))].
+
+Definition expected_feedback (e a : axes) : fb :=
+  fb_version e a ++ fb_protocol e a ++ fb_codec e a ++ fb_compression e a ++ fb_tls e a ++ fb_method e a.
+
+(* ---------- 2. histories: how often a test name was seen before ---------- *)
+Definition name_of (r : request) : bytes := hd [] (x_name r).
+Fixpoint seen_before (name : bytes) (history : list request) : Z :=
+  match history with
+  | [] => 0
+  | r :: h => (if bytes_eqb name (name_of r) then 1 else 0) + seen_before name h
+  end.
+
+(* ---------- 3. the timeout grammars ---------- *)
+Definition digit (c : N) : Prop := (48 <= c <= 57)%N.
+Definition digits (s : bytes) : Prop := s <> [] /\ Forall digit s.
+
+(* decimal value, least significant digit first / as written *)
+Fixpoint value_lsf (r : bytes) : Z :=
+  match r with [] => 0 | c :: r' => (Z.of_N c - 48) + 10 * value_lsf r' end.
+Definition value (s : bytes) : Z := value_lsf (rev s).
+
+Definition max_duration : Z := 2 ^ 63 - 1.            (* time.Duration is an int64 of nanoseconds *)
+Definition saturate (ns : Z) : Z := Z.min ns max_duration.
+
+(* Connect: 1 to 10 digits, milliseconds *)
+Definition connect_grammar (s : bytes) : Prop := digits s /\ (length s <= 10)%nat.
+Definition connect_duration (s : bytes) : Z := saturate (value s * 1000000).
+
+(* gRPC and gRPC-Web: 1 to 8 digits and one unit *)
+Definition unit_ns (u : N) : option Z :=
+  if (u =? 72)%N then Some 3600000000000        (* H *)
+  else if (u =? 77)%N then Some 60000000000     (* M *)
+  else if (u =? 83)%N then Some 1000000000      (* S *)
+  else if (u =? 109)%N then Some 1000000        (* m *)
+  else if (u =? 117)%N then Some 1000           (* u *)
+  else if (u =? 110)%N then Some 1              (* n *)
+  else None.
+Definition grpc_timeout_is (s : bytes) (d : Z) : Prop :=
+  exists ds u ns, s = ds ++ [u] /\ digits ds /\ (length ds <= 8)%nat /\ unit_ns u = Some ns /\
+                  d = saturate (value ds * ns).
+Definition grpc_grammar (s : bytes) : Prop := exists d, grpc_timeout_is s d.
+
+(* per protocol: the header that carries the timeout, whether a value follows the grammar,
+   and the duration it stands for *)
+Definition timeout_header (p : protocol) (r : request) : list bytes :=
+  match p with PConnect => connect_timeout r | _ => grpc_timeout r end.
+Definition timeout_is (p : protocol) (s : bytes) (d : Z) : Prop :=
+  match p with
+  | PConnect => connect_grammar s /\ d = connect_duration s
+  | _ => grpc_timeout_is s d
+  end.
+Definition without_timeout (p : protocol) (r : request) : request :=
+  match p with PConnect => set_connect_timeout r [] | _ => set_grpc_timeout r [] end.
+
+(* feedback lines about the timeout header *)
+Definition is_timeout_kind (k : kind) : bool :=
+  match k with
+  | KTimeoutConnectInvalid | KTimeoutConnectLong | KTimeoutGrpcEmpty | KTimeoutGrpcUnit
+  | KTimeoutGrpcInvalid | KTimeoutGrpcLong => true
+  | _ => false
+  end.
+
+(* a request that announces protocol p the way the runner does (strconv.Itoa of the enum) *)
+Definition announces (r : request) (p : protocol) : Prop := hd [] (x_protocol r) = dec1 (protocol_num p).
+
+(* ---------- 4. the one thing taken on trust about package time ---------- *)
+(* int64(d.Hours()), int64(d.Minutes()), int64(d.Seconds()) are computed in float64; all that
+   is assumed of them: within 1 of the truncated quotient, exact on exact multiples. *)
+Definition float_quot_ok (fq : Z -> Z -> Z) : Prop :=
+  forall t u, 0 < u -> Z.abs (fq t u - Z.quot t u) <= 1 /\ (Z.rem t u = 0 -> fq t u = Z.quot t u).
